@@ -192,6 +192,26 @@ def run_one(ck, prog):
                 dst_new = mentions(a[1], ctx.prov, lambda z: z[0] == "call" and z[3] == news[0])
                 ln = strip_casts(a[2])
                 is_min = isinstance(ln, tuple) and ln[0] == "call" and (ln[1] or "").endswith("cmp::min") and any(canon(x) in ("p3", "p5") for x in ln[2])
+                if not is_min and isinstance(ln, tuple) and ln[0] == "var" and len(ln[3]) == 2:
+                    # the minimum written as a branch: `if a < b { a } else { b }` - each value is chosen on the edge where it is the smaller
+                    picks = []
+                    for (dbb, di) in ln[3]:
+                        blk = ctx.cfg.block(dbb)
+                        if di < len(blk["stmts"]) and blk["stmts"][di]["k"] == "assign":
+                            picks.append((dbb, strip_casts(ctx.prov.rvalue(blk["stmts"][di]["rv"], (dbb, di)))))
+                    if len(picks) == 2:
+                        (b1, v1), (b2, v2) = picks
+
+                        def smaller_here(bb_, x, y):
+                            cx, cy = canon(x), canon(y)
+                            for f in panics.dominating_facts(ctx, bb_):
+                                if f[0] != "cmp":
+                                    continue
+                                l_, r_ = canon(strip_casts(f[2])), canon(strip_casts(f[3]))
+                                if (f[1] in ("Lt", "Le") and (l_, r_) == (cx, cy)) or (f[1] in ("Gt", "Ge") and (l_, r_) == (cy, cx)):
+                                    return True
+                            return False
+                        is_min = smaller_here(b1, v1, v2) and smaller_here(b2, v2, v1) and any(canon(x) in ("p3", "p5") for x in (v1, v2))
                 ck.ob("C03.7", f"{nm.split('::')[-1]}|prefix-copied-old-to-new", src_old and dst_new and is_min and ctx.cfg.dominates(cb, frees[0]), fn=nm, site=ctx.site(cb),
                       detail=f"a moving reallocation must copy min(old, new) bytes from the old block into the new one before freeing the old one; got copy({show(a[0])}, {show(a[1])}, {show(a[2])})")
             ck.ob("C03.7", f"{nm.split('::')[-1]}|one-copy", len(copies) == 1, fn=nm, detail=f"copy sites {len(copies)}")
